@@ -31,10 +31,15 @@ goroutine can see:
   (tasks never read `Server.documents`), and the `go` statement comes after it in program order,
   so the new task captures exactly the version stored.  Hence the whole handler is one atomic
   event as far as tasks and the client can tell.
-* `analyse i` — `getSettings`, `loader.LoadFromContent`, `resolved.Store`, `analyze` (l. 291-331).
-  None of this reads or writes what the publish protocol depends on (versions, `publishMu`, the
-  client), so it is one step whose result is `diag text` for an *uninterpreted* `diag`
-  (DESIGN 3.9; C14/C19 refine this step, C13 does not care what the diagnostics of a text are).
+* `analyse i` — `getSettings`, `loader.LoadFromContent`, `storeResolvedIfCurrent`, `analyze`
+  (l. 291-331).  None of this reads or writes what the publish protocol depends on (`publishMu`,
+  the client; `storeResolvedIfCurrent` reads the version table in a critical section of its own
+  and writes `Server.resolved` only), so it is one step whose result is `diag text` for an
+  *uninterpreted* `diag` (DESIGN 3.9; C14/C19 refine this step — `HL.Bg` (Spec/Bg.lean) is the
+  transition system of `Server.resolved`, in which the handler thread stores too since
+  repo_patches/fix-resolved-pending.diff: a request that finds no tree stored resolves it from
+  the current buffer, `Server.documentResolved` — C13 does not care what the diagnostics of a
+  text are).
 * `lock i`    — `s.publishMu.Lock()` (l. 275); enabled only when the mutex is free.
 * `check i`   — `isCurrentDocVersion` (l. 277, body l. 260-265): one critical section of `docVerMu`, reads the
   version table once.
